@@ -86,7 +86,7 @@ def model_bench(name, phy="sdr_1_1", bankbits=1, rowbits=2, colbits=4, dfi_datab
             pre = d["pre"] & (hit | ph.address[10])
             cas = (d["rd"] | d["wr"]) & hit
             legal += [~(act & cur_o[b]), ~(cas & ~cur_o[b]),
-                      ~(pre & cur_o[b] & (wrec[b] != 0)), ~(d["rd"] & hit & (wrec[b] != 0)),
+                      ~(pre & (wrec[b] != 0)), ~(d["rd"] & hit & (wrec[b] != 0)),
                       ~(act & (wrec[b] != 0))]
             ap = cas & ph.address[10]
             no = Signal()
